@@ -6,6 +6,7 @@ import (
 	"io"
 	"net/http"
 	"net/url"
+	"sync"
 
 	"google.golang.org/grpc/codes"
 	"google.golang.org/grpc/status"
@@ -15,6 +16,7 @@ func init() {
 	vfHarnesses["VerifH_gzip_pool"] = VerifH_gzip_pool
 	vfHarnesses["VerifH_gzip_http"] = VerifH_gzip_http
 	vfHarnesses["VerifH_gzip_grpc"] = VerifH_gzip_grpc
+	vfHarnesses["VerifH_gzip_conc"] = VerifH_gzip_conc
 }
 
 func vfGzip(data []byte) []byte {
@@ -286,4 +288,64 @@ func VerifH_gzip_grpc() {
 		}
 	}
 	vfGzipPoolProbe(mux)
+}
+
+type vfYieldBuffer struct{ buf bytes.Buffer }
+
+func (b *vfYieldBuffer) Write(p []byte) (int, error) {
+	vfYield() // a network write is a scheduling point
+	n, err := b.buf.Write(p)
+	vfYield()
+	return n, err
+}
+
+// VerifH_gzip_conc (C13): two goroutines compress their own data through one CompressorGzip at the
+// same time (goroutine model: scheduling points at the pool operations and at every write to the
+// destination), after a warm-up use that left a writer in the pool. Each destination must hold a
+// gzip stream of exactly its own data under every schedule within the context bound.
+func VerifH_gzip_conc() {
+	vfPreemptions(vfBound(2, 3))
+	vfRaceDetect()
+	defer vfSingleP()()
+	c := &CompressorGzip{}
+	warm := &bytes.Buffer{}
+	if w, err := c.Compress(warm); err == nil {
+		w.Write([]byte("warm"))
+		w.Close()
+	}
+	data := [2][]byte{[]byte("first-request"), []byte("second")}
+	var dst [2]vfYieldBuffer
+	var errs [2]error
+	var wg sync.WaitGroup
+	for i := 0; i < 2; i++ {
+		i := i
+		wg.Add(1)
+		go func() {
+			defer wg.Done()
+			if i == 1 {
+				// the second request arrives a little later (natively this lets the first one get as far
+				// as its Close before the second asks the pool for a writer)
+				for j := 0; j < 3; j++ {
+					vfYield()
+				}
+			}
+			w, err := c.Compress(&dst[i])
+			if err != nil {
+				errs[i] = err
+				return
+			}
+			if _, err := w.Write(data[i]); err != nil {
+				errs[i] = err
+				return
+			}
+			errs[i] = w.Close()
+		}()
+	}
+	wg.Wait()
+	for i := 0; i < 2; i++ {
+		vfCheck(errs[i] == nil, "compression failed")
+		got, err := vfGunzip(dst[i].buf.Bytes())
+		vfCheck(err == nil && vfBytesEq(got, data[i]), "concurrent compressions through the pooled gzip writer do not each produce their own stream")
+	}
+	vfCover("two-compressions")
 }
